@@ -13,6 +13,10 @@ import z3
 from . import pyexec as X
 from .pyexec import Sym, Const, Ref, Arr, BufSlice, Opaque, Builtin, BoundMethod, Unsupported, uid
 
+FLOAT53 = z3.Function("FLOAT53", z3.IntSort(), z3.IntSort())  # value after a round trip through float64
+FLOAT32 = z3.Function("FLOAT32", z3.RealSort(), z3.RealSort())  # value after rounding to float32
+
+
 ASSUMED = [
     "SharedMemory(create=True,size=n) gives exactly n bytes; attaching by name gives the same bytes (assumed, Linux)",
     "CPython semantics of the executed subset: attribute reads return the last stored value, or/and short-circuit, isinstance, min, int, len",
@@ -31,6 +35,9 @@ def _shm(ex, st, f, args, kwargs):
         st.effects.append(("shm-create", ref.oid, z3.simplify(t)))
     else:
         name = kwargs.get("name", args[0] if args else None)
+        asz = getattr(ex, "attach_size", None)
+        if asz is not None:  # assumed: the attached mapping has exactly the owner's size (Linux)
+            st.objs[buf.oid]["fields"]["size"] = Sym(asz, "int")
         ref = st.new_obj("$shm", {"buf": buf, "name": name, "owner": Const(False)})
         st.effects.append(("shm-attach", ref.oid, name))
     return [("val", ref, st)]
@@ -81,8 +88,13 @@ class Exec(X.PyExec):
             t, isr = self.num(e)
             return Sym(t if isr else z3.ToReal(t), "float")
         if dtype == "infer":
-            dts = [x.dtype for x in [e] if isinstance(x, Sym)]
-            return Sym(self.num(e)[0], "uint64")  # all-unsigned lists promote to uint64 (checked by caller)
+            t, isr = self.num(e)
+            if isinstance(e, Sym) and e.dtype.startswith("uint"):
+                return Sym(t, "uint64")  # lists of unsigned numpy scalars promote to uint64 (exact)
+            if isr or (isinstance(e, Sym) and e.dtype in ("float", "pyfloat")):
+                return Sym(t, "float")
+            # python ints without dtype: int64 when they fit, otherwise numpy falls back to float64
+            return Sym(z3.If(z3.And(t >= -(2**63), t < 2**63), t, FLOAT53(t)), "int64")
         t, isr = self.num(e)
         return Sym(t, dtype)
 
@@ -112,16 +124,44 @@ class Exec(X.PyExec):
 
 
 def counter_method(ex, name, selfv, args, kwargs, st):
-    o = st.objs[selfv.oid]["fields"]
     if name == "counter.most_common":
         st.effects.append(("most_common", selfv.oid, args[0] if args else None))
-        return [("val", Opaque("most_common"), st)]
+        r = Opaque("most_common")
+        r.counter = selfv.oid
+        r.k = args[0] if args else None
+        return [("val", r, st)]
     raise Unsupported(name)
 
 
 def _counter(ex, st, f, args, kwargs):
-    ref = st.new_obj("$counter", {"items": {}})
+    if args or kwargs:
+        raise Unsupported("Counter(...) with arguments")
+    ref = st.new_obj("$counter", {"$entries": ()})
     return [("val", ref, st)]
+
+
+def counter_lookup(entries, key_t):
+    """value of a Counter (finite map, later stores shadow earlier ones) at key identity key_t"""
+    t = z3.IntVal(0)
+    for k, v in entries:
+        t = z3.If(key_t == k, v, t)
+    return t
+
+
+def _counter_getitem(ex, st, ref, idx):
+    if not (isinstance(idx, Sym) and idx.dtype == "bytes"):
+        raise Unsupported("Counter lookup with a non-bytes key")
+    ent = st.objs[ref.oid]["fields"]["$entries"]
+    return [("val", Sym(z3.simplify(counter_lookup(ent, idx.t)), "int"), st)]
+
+
+def _counter_setitem(ex, st, ref, idx, value):
+    if not (isinstance(idx, Sym) and idx.dtype == "bytes"):
+        raise Unsupported("Counter store with a non-bytes key")
+    f = st.objs[ref.oid]["fields"]
+    f["$entries"] = f["$entries"] + ((idx.t, ex.num(value)[0]),)
+    st.effects.append(("counter-store", ref.oid, idx, value))
+    return [("fall", None, st)]
 
 
 def _counter_getattr(ex, st, ref, attr):
@@ -138,13 +178,30 @@ def _sdict_iter(ex, st, ref):
     return [k for k, v in st.objs[ref.oid]["fields"]["$items"]]
 
 
+def _npz_getitem(ex, st, ref, idx):
+    name = idx.v if isinstance(idx, Const) else None
+    members = getattr(ex, "npz_members", None)
+    st.effects.append(("npz-read", ref.oid, name))
+    if members is None or name not in members:
+        return [("raise", Const(KeyError), st)]
+    return [("val", members[name], st)]
+
+
+def _stub_gcs(ex, st, f, args, kwargs):
+    st.effects.append(("call", "HeavyHitters.generate_candidate_set", tuple(args)))
+    return [("val", Const(None), st)]
+
+
 HOOKS = {
+    ("getitem", "$npz"): _npz_getitem,
     ("getattr", "$dict"): _sdict_getattr,
     ("iter", "$dict"): _sdict_iter,
     ("external", "SharedMemory"): _shm,
     ("getattr", "$shm"): _shm_getattr,
     ("getattr", "$rng"): _rng_getattr,
     ("external", "Counter"): _counter,
+    ("getitem", "$counter"): _counter_getitem,
+    ("setitem", "$counter"): _counter_setitem,
     ("getattr", "$counter"): _counter_getattr,
 }
 
@@ -168,21 +225,30 @@ CLASSES = {
 }
 
 
+FB = z3.Function("FIND_BASE", z3.IntSort(), z3.IntSort(), z3.IntSort(), z3.RealSort())
+FB_OK = z3.Function("FIND_BASE_ACCEPTS", z3.IntSort(), z3.IntSort(), z3.IntSort(), z3.BoolSort())
+
+
 def find_base_hook(ex, st, f, args, kwargs):
-    """_find_base is a kernel outside the verifier's reach: assumed contract 'returns a base > 1 or
-    raises ValueError' (bounded stand-in in C18)."""
+    """_find_base is a jitted *function* of its arguments that is outside the verifier's reach:
+    assumed contract 'returns FIND_BASE(args) > 1 when FIND_BASE_ACCEPTS(args), else raises
+    ValueError' (its quality is checked by the bounded stand-in of C18)."""
     if getattr(f, "qualname", "") != "countmin._find_base":
         return None
     mc, nr, um = [ex.num(a)[0] for a in args]
     names = ["max_count", "num_reserved", "uint_max"]
     st.effects.append(("kernel", "countmin._find_base", dict(zip(names, args))))
-    ok = st.fork()
-    b = z3.Real(uid("base"))
-    ok.pc.append(b > 1)
-    v = Sym(b, "float")
-    v.origin = ("find_base", mc, nr, um)
-    bad = st.fork()
-    return [("val", v, ok), ("raise", Const(ValueError), bad)]
+    out = []
+    for cond, s2 in ex.branch(Sym(FB_OK(mc, nr, um), "bool"), st):
+        if cond:
+            b = FB(mc, nr, um)
+            s2.pc.append(b > 1)
+            v = Sym(b, "float")
+            v.origin = ("find_base", mc, nr, um)
+            out.append(("val", v, s2))
+        else:
+            out.append(("raise", Const(ValueError), s2))
+    return out
 
 
 def construct(ex, clsname, tag, shared=False, st=None, phi_none=True):
@@ -198,15 +264,12 @@ def construct(ex, clsname, tag, shared=False, st=None, phi_none=True):
             args[p] = Sym(z3.Int("%s_%s" % (p, tag)), "int")
     kwargs = dict(args)
     kwargs["shared_memory"] = Const(bool(shared))
-    old = ex.hooks.get(("call", "countmin._find_base"))
-    ex.hooks[("call", "countmin._find_base")] = find_base_hook
-    try:
-        outs = ex.instantiate(cls, [], kwargs, st)
-    finally:
-        if old is None:
-            ex.hooks.pop(("call", "countmin._find_base"), None)
+    outs = ex.instantiate(cls, [], kwargs, st)
     return args, outs
 
 
 def field(st, ref, name):
     return st.objs[ref.oid]["fields"].get(name)
+
+
+HOOKS[("call", "countmin._find_base")] = find_base_hook
